@@ -1,0 +1,61 @@
+//go:build verif
+
+package executor
+
+// Contracts for package executor, checked by /verif/govc. Compiled only with -tags=verif.
+
+func verifAssert(bool) {}
+func verifAssume(bool) {}
+
+//@ import utilsio @/utils/io
+
+// ---------------------------------------------------------------------------------------------
+// C12: row limits
+
+//@ func trimResultsToLimit
+//@ props C12
+//@ requires #rowlen: rowLen + 8 > 0 && rowLen < 2147483648
+//@ requires #limit: l.Number >= 0
+//@ ensures #noTrim: len(src)/(rowLen+8) <= l.Number ==> result == src
+//@ ensures #first: (len(src)/(rowLen+8) > l.Number && l.Direction == utilsio.FIRST) ==> (base(result) == base(src) && len(result) == l.Number*(rowLen+8))
+//@ ensures #last: (len(src)/(rowLen+8) > l.Number && l.Direction != utilsio.FIRST) ==> (base(result)+len(result) == base(src)+len(src) && len(result) == l.Number*(rowLen+8))
+
+// ---------------------------------------------------------------------------------------------
+// C11: time range of a variable-length result buffer
+
+// rowT(m, a, R): time (ns since the epoch) carried by the result row that starts at address a of byte
+// memory m and is R bytes long: 8-byte epoch seconds first, 4-byte nanoseconds last.
+//@ ghost opaque func rowT(m bytes, a int, r int) int = sle64(m, a)*1000000000 + sle32(m, a+r-4)
+
+// rowAt(b, k, R): address of row k in a buffer that starts at address b (opaque so that quantified
+// row statements have purely uninterpreted triggers).
+//@ ghost opaque func rowAt(b int, k int, r int) int = b + k*r
+
+//@ func TimeOfVariableRecord
+//@ props C11
+//@ reveal rowT
+//@ requires #lo: 0 <= cursor && cursor+8 <= len(buf)
+//@ requires #hi: rowLength >= 4 && rowLength <= len(buf) && cursor+rowLength <= len(buf)
+//@ ensures #abs: abs(result) == rowT(mem(buf), base(buf)+cursor, rowLength)
+
+//@ func trimResultsToRange
+//@ props C11
+//@ option nooverflow
+//@ reveal rowAt
+//@ requires #rowlen: rowlen + 8 >= 12 && rowlen < 2147483648
+//@ requires #wholeRows: len(src) == (len(src)/(rowlen+8))*(rowlen+8)
+//@ loop 0 invariant #l0range: 0 <= i && i <= nrecords && cursor == i*rowLength && dest == nil
+//@ loop 0 invariant #l0before: forall(k, 0, i, rowT(mem(src), rowAt(base(src), k, rowLength), rowLength) < abs(dr.Start))
+//@ loop 0 decreases nrecords - i
+//@ loop 1 invariant #l1range: 0 <= i && i <= nrecords && end == 0
+//@ loop 1 invariant #l1after: forall(k, i, nrecords, rowT(mem(dest), rowAt(base(dest), k, rowLength), rowLength) > abs(dr.End))
+//@ loop 1 decreases i
+// Exit assertions in the function's own row numbering. For a buffer sorted by time they say that the
+// result is exactly the rows t with Start <= t <= End (the sortedness step is not machine-checked).
+//@ exit #end: len(src)/rowLength == 0 || end == i*rowLength
+//@ exit #beforeStart: len(src)/rowLength == 0 || forall(k, 0, phi(0, i), rowT(mem(src), rowAt(base(src), k, rowLength), rowLength) < abs(dr.Start))
+//@ exit #firstGeStart: (len(src)/rowLength != 0 && dest != nil) ==> rowT(mem(src), rowAt(base(src), phi(0, i), rowLength), rowLength) >= abs(dr.Start)
+//@ exit #resultStart: (len(src)/rowLength != 0 && result != nil) ==> (base(result) == base(src) + phi(0, i)*rowLength && len(result) == end && phi(0, i) + nrecords == len(src)/rowLength)
+//@ exit #afterEnd: len(src)/rowLength == 0 || forall(k, i, nrecords, rowT(mem(dest), rowAt(base(dest), k, rowLength), rowLength) > abs(dr.End))
+//@ exit #lastLeEnd: (len(src)/rowLength != 0 && end > 0) ==> rowT(mem(dest), rowAt(base(dest), i-1, rowLength), rowLength) <= abs(dr.End)
+//@ ensures #resultInSrc: len(src)/(rowlen+8) == 0 || result == nil || (base(src) <= base(result) && base(result)+len(result) <= base(src)+len(src))
